@@ -397,7 +397,6 @@ func c18Codec(r *core.Run) {
 	}
 }
 
-
 // c18FreshTarget: a decoder merges into its target — fields absent from the input keep their previous value and
 // slices reuse the previous backing array. A signature decoded inside a loop therefore needs a target that is
 // allocated in that iteration; a variable declared outside the loop carries the previous element's content
